@@ -115,7 +115,7 @@ def run(ctx, chk):
         C13.run(ctx, sub)
         n = 0
         for o in sub.obs:
-            if o['rule'] == 'C13.P9' and o['nontrivial']:
+            if o['rule'] in ('C13.P9', 'C13.P10') and o['nontrivial']:
                 chk.ob('C07.F5', '%s:%s' % (o['rule'], o['key']), o['ok'], o['where'], o['detail'])
                 n += 1
         chk.floor('C07.F5', 'paths that attach a PHC error bound to a report', n, 1)
